@@ -2,7 +2,8 @@
    codec's language and every canonical value. *)
 From Coq Require Import List ZArith Lia Bool ZifyBool.
 From Verif Require Import Common.Outcome Common.Bytes Common.BytesLemmas
-  Ber.Model Ber.DecEq Ber.X690 Ber.Arith Ber.RefArith Ber.ParseHdr Ber.Safety Ber.WellTyped Ber.RefEq.
+  Ber.Model Ber.DecEq Ber.X690 Ber.Arith Ber.RefArith Ber.ParseHdr Ber.Safety Ber.WellTyped Ber.RefEq
+  Ber.WrongType.
 Import ListNotations.
 Open Scope Z_scope.
 
@@ -24,23 +25,61 @@ Definition tagged (p : fparams) : bool :=
 Definition noexp (p : fparams) : bool := negb (p_explicit p) || negb (tagged p).
 Definition tagnum (p : fparams) : Z := match p_tag p with Some n => n | None => -1 end.
 
-(* context tags of the members are pairwise distinct (untagged members are
-   ignored: they can never match a context tag) *)
-Fixpoint tags_distinct (l : list (fparams * ty)) : bool :=
+(* the identifiers (class, form, number) an encoding of a [t] under [p] can start with *)
+Definition ident3 := (Z * bool * Z)%type.
+Definition ident3_eqb (a b : ident3) : bool :=
+  let '(c1, k1, n1) := a in let '(c2, k2, n2) := b in (c1 =? c2) && Bool.eqb k1 k2 && (n1 =? n2).
+Definition tal3 (tl : tal) : ident3 := (t_cls tl, t_constr tl, t_num tl).
+
+Fixpoint firsts (t : ty) (p : fparams) {struct t} : list ident3 :=
+  match t with
+  | TPtr t' => firsts t' p
+  | _ =>
+    match p_tag p with
+    | Some n =>
+      if p_explicit p || is_choice t then [(2, true, n)]
+      else match t with
+           | TWrap t' => firsts t' p
+           | _ => match prim_tag t p with Some (k, _) => [(2, k, n)] | None => [] end
+           end
+    | None =>
+      match t with
+      | TWrap t' => firsts t' p
+      | TChoice alts =>
+        (fix go (l : list (fparams * ty)) : list ident3 :=
+           match l with [] => [] | (ap, at') :: r => firsts at' ap ++ go r end) alts
+      | _ => match prim_tag t p with Some (k, w) => [(0, k, w)] | None => [] end
+      end
+    end
+  end.
+
+(* no identifier can start both members; members pairwise so: an element then belongs to at
+   most one member, whatever the order in which the decoder scans them *)
+Definition disjoint (a b : fparams * ty) : bool :=
+  forallb (fun f => negb (existsb (ident3_eqb f) (firsts (snd b) (fst b)))) (firsts (snd a) (fst a)).
+Fixpoint members_distinct (l : list (fparams * ty)) : bool :=
   match l with
   | [] => true
-  | a :: r =>
-    (match p_tag (fst a) with
-     | Some n => negb (existsb (fun b => tag_matches (fst b) n) r)
-     | None => true
-     end) && tags_distinct r
+  | a :: r => forallb (disjoint a) r && members_distinct r
+  end.
+
+(* ... hereditarily, for a whole type descriptor (value-independent part of [ok]) *)
+Fixpoint ty_distinct (t : ty) : bool :=
+  match t with
+  | TPtr t' | TWrap t' | TSlice t' => ty_distinct t'
+  | TChoice l | TSeq l =>
+    members_distinct l &&
+    (fix go (l : list (fparams * ty)) : bool :=
+       match l with [] => true | (_, t') :: r => ty_distinct t' && go r end) l
+  | _ => true
   end.
 
 (* [ok t p v]: the part of the type that the value [v] actually exercises lies
    in the decoder's language, and [v] is canonical.
    - context tags IMPLICIT (or none) and below 2^63; no open types; no OBJECT
-     IDENTIFIER; every member that is *present* in the encoding carries a
-     context tag; member tags pairwise distinct; OPTIONAL only on nillable kinds;
+     IDENTIFIER; the members of a SEQUENCE, SET or CHOICE start with pairwise
+     different identifiers (context tag, or universal identifier of the type for a
+     member declared without one); OPTIONAL only on nillable kinds;
    - integers are int64; BIT STRING byte count = ceil(bits/8); the unselected
      alternatives of a CHOICE are nil.
    Members that are absent (nil OPTIONAL) or alternatives that are not selected
@@ -67,12 +106,12 @@ Fixpoint ok (t : ty) (p : fparams) (v : value) {struct t} : bool :=
   | TChoice alts =>
     match v with
     | VStruct (VInt pr :: vs) =>
-      negb (p_open p) && tags_distinct alts &&
+      negb (p_open p) && members_distinct alts &&
       (fix go (l : list (fparams * ty)) (ws : list value) (k : Z) : bool :=
          match l, ws with
          | [], [] => true
          | (ap, at') :: l', w :: ws' =>
-           (if k =? pr then tagged ap && ok at' ap w else is_nil w && is_nil (zero at')) && go l' ws' (k + 1)
+           (if k =? pr then ok at' ap w else is_nil w && is_nil (zero at')) && go l' ws' (k + 1)
          | _, _ => false
          end) alts vs 1
     | _ => false
@@ -80,13 +119,13 @@ Fixpoint ok (t : ty) (p : fparams) (v : value) {struct t} : bool :=
   | TSeq fields =>
     match v with
     | VStruct vs =>
-      negb (p_open p) && tags_distinct fields &&
+      negb (p_open p) && members_distinct fields &&
       (fix go (l : list (fparams * ty)) (ws : list value) : bool :=
          match l, ws with
          | [], [] => true
          | (fp, ft) :: l', w :: ws' =>
            (if p_optional fp && is_nil w then nillable ft
-            else (negb (p_optional fp) || nillable ft) && tagged fp && ok ft fp w) && go l' ws'
+            else (negb (p_optional fp) || nillable ft) && ok ft fp w) && go l' ws'
          | _, _ => false
          end) fields vs
     | _ => false
@@ -150,6 +189,19 @@ Proof.
   eexists. eexists. split; [reflexivity|]. cbn [t_len t_num].
   split; [lia|]. split; [lia|]. split; [lia|].
   intros n En. apply Hn, En.
+Qed.
+
+(* ... the header read does not depend on what follows *)
+Lemma shaped_parse_all p bs :
+  shaped p bs -> zlen bs < 2 ^ 32 ->
+  exists tal off, (forall rest, parse_tl (bs ++ rest) = Ok (tal, off)) /\ 2 <= off /\
+    off + t_len tal = zlen bs /\ 0 <= t_len tal.
+Proof.
+  intros [c [k [tn [content [E [Hc [Ht Hn]]]]]]] Hs. subst bs.
+  rewrite zlen_app in *. pose proof (zlen_nonneg content). pose proof (hdr_len_pos c k tn (zlen content)).
+  exists (mkTal c k tn (zlen content)), (zlen (hdr c k tn (zlen content))).
+  split; [|cbn [t_len]; lia].
+  intros rest. rewrite <- app_assoc. apply parse_hdr; try assumption; lia.
 Qed.
 
 Lemma slice_from_app_len a b : slice_from (a ++ b) (zlen a) = Ok b.
@@ -243,7 +295,7 @@ End Enter.
 Lemma ident_ok_tl_of t p k tn len :
   (forall k' w, prim_tag t p = Some (k', w) -> k = k' /\ tn = w) -> ident_ok t p (tl_of p 0 k tn len) = true.
 Proof.
-  intros Hw. unfold ident_ok, tl_of. destruct (prim_tag t p) as [[k' w]|]; [|reflexivity].
+  intros Hw. unfold ident_ok, ident_matches, tl_of. destruct (prim_tag t p) as [[k' w]|]; [|reflexivity].
   destruct (Hw k' w eq_refl) as [-> ->].
   destruct (p_tag p) as [n|]; cbn [t_cls t_num t_constr]; rewrite ?Z.eqb_refl, Bool.eqb_reflx; reflexivity.
 Qed.
@@ -523,7 +575,7 @@ Definition ok_choice_go (pr : Z) :=
     match l, ws with
     | [], [] => true
     | (ap, at') :: l', w :: ws' =>
-      (if k =? pr then tagged ap && ok at' ap w else is_nil w && is_nil (zero at')) && go l' ws' (k + 1)
+      (if k =? pr then ok at' ap w else is_nil w && is_nil (zero at')) && go l' ws' (k + 1)
     | _, _ => false
     end.
 
@@ -555,7 +607,7 @@ Lemma canon_choice_sel pr : forall l ws k j ap at' w,
   pr = k + Z.of_nat j -> ok_choice_go pr l ws k = true ->
   nth_error l j = Some (ap, at') -> nth_error ws j = Some w ->
   canon_choice_go pr l ws k = set_nth (map (fun a => zero (snd a)) l) j (canon at' false w) /\
-  tagged ap = true /\ ok at' ap w = true.
+  ok at' ap w = true.
 Proof.
   induction l as [|[a0 t0] l IH]; intros ws k j ap at' w Hpr Hcv Hl Hw.
   - destruct j; discriminate Hl.
@@ -564,8 +616,7 @@ Proof.
     apply andb_true_iff in Hcv. destruct Hcv as [H0 Hr].
     destruct j as [|j]; cbn [nth_error set_nth] in *.
     + inversion Hl; inversion Hw; subst. replace (k =? k + Z.of_nat 0) with true in * by lia.
-      apply andb_true_iff in H0. destruct H0 as [T0 K0].
-      split; [|split; assumption]. f_equal. apply canon_choice_nomatch; [lia | exact Hr].
+      split; [|assumption]. f_equal. apply canon_choice_nomatch; [lia | exact Hr].
     + replace (k =? pr) with false in * by lia.
       apply andb_true_iff in H0. destruct H0 as [N1 N2].
       rewrite (is_nil_eq _ N1), (is_nil_eq _ N2).
@@ -574,8 +625,8 @@ Proof.
 Qed.
 
 Lemma choice_pick_sel rec alts rest tn : forall j l k0 ap at',
-  (forall i a, nth_error l i = Some a -> (i < j)%nat -> tag_matches (fst a) tn = false) ->
-  nth_error l j = Some (ap, at') -> tag_matches ap tn = true ->
+  (forall i a, nth_error l i = Some a -> (i < j)%nat -> starts (snd a) (fst a) tn = false) ->
+  nth_error l j = Some (ap, at') -> starts at' ap tn = true ->
   choice_pick rec alts rest tn l k0 =
   do v <- rec at' ap rest;
   Ok (VStruct (VInt (Z.of_nat (S (k0 + j))) :: set_nth (map (fun a => zero (snd a)) alts) (k0 + j) v)).
@@ -585,42 +636,92 @@ Proof.
     cbn [choice_pick]. rewrite Hm. rewrite Nat.add_0_r. reflexivity.
   - destruct l as [|[a0 t0] l]; [discriminate Hl|]. cbn [nth_error] in Hl.
     cbn [choice_pick].
-    pose proof (Hbefore 0%nat (a0, t0) eq_refl ltac:(lia)) as Hb0. cbn [fst] in Hb0. rewrite Hb0.
+    pose proof (Hbefore 0%nat (a0, t0) eq_refl ltac:(lia)) as Hb0. cbn [fst snd] in Hb0. rewrite Hb0.
     rewrite (IH l (S k0) ap at'); [| |exact Hl|exact Hm].
     + replace (S k0 + j)%nat with (k0 + S j)%nat by lia. reflexivity.
     + intros i a Hi Hlt. apply (Hbefore (S i) a Hi). lia.
 Qed.
 
-(* distinct member tags *)
-Lemma tagged_tag p : tagged p = true -> p_tag p = Some (tagnum p).
-Proof. unfold tagged, tagnum. destruct (p_tag p); [reflexivity | discriminate]. Qed.
-
-Lemma tags_distinct_neq l : tags_distinct l = true -> forall i j a b,
-  nth_error l i = Some a -> nth_error l j = Some b -> i <> j -> tagged (fst b) = true ->
-  tag_matches (fst a) (tagnum (fst b)) = false.
+(* distinct members *)
+Lemma ident3_eqb_eq a b : ident3_eqb a b = true -> a = b.
 Proof.
-  induction l as [|x l IH]; intros Hd i j a b Ha Hb Hne Tb.
+  destruct a as [[c1 k1] n1], b as [[c2 k2] n2]. unfold ident3_eqb. intros H.
+  apply andb_true_iff in H. destruct H as [H H3]. apply andb_true_iff in H. destruct H as [H1 H2].
+  apply Bool.eqb_prop in H2. f_equal; [f_equal|]; [lia | exact H2 | lia].
+Qed.
+Lemma ident3_eqb_refl a : ident3_eqb a a = true.
+Proof. destruct a as [[c k] n]. unfold ident3_eqb. rewrite !Z.eqb_refl, Bool.eqb_reflx. reflexivity. Qed.
+
+Lemma ident_matches_ctx tl k w p n : p_tag p = Some n ->
+  ident_matches tl k w p = ident3_eqb (tal3 tl) (2, k, n).
+Proof.
+  intros E. unfold ident_matches, ident3_eqb, tal3. rewrite E.
+  destruct (Bool.eqb (t_constr tl) k), (t_cls tl =? 2), (t_num tl =? n); reflexivity.
+Qed.
+Lemma ident_matches_univ tl k w p : p_tag p = None ->
+  ident_matches tl k w p = ident3_eqb (tal3 tl) (0, k, w).
+Proof.
+  intros E. unfold ident_matches, ident3_eqb, tal3. rewrite E.
+  destruct (Bool.eqb (t_constr tl) k), (t_cls tl =? 0), (t_num tl =? w); reflexivity.
+Qed.
+
+Lemma starts_firsts : forall t p tl, starts t p tl = existsb (ident3_eqb (tal3 tl)) (firsts t p).
+Proof.
+  induction t using ty_ind'; intros p tl;
+    try (cbn [starts firsts is_choice prim_tag orb];
+         destruct (p_tag p) as [n|] eqn:Et; [destruct (p_explicit p)|]; cbn [andb orb existsb];
+         rewrite ?orb_false_r;
+         first [ apply (ident_matches_ctx _ _ _ _ _ Et) | apply (ident_matches_univ _ _ _ _ Et) | reflexivity ]).
+  - cbn [starts firsts]. apply IHt.
+  - cbn [starts firsts is_choice orb].
+    destruct (p_tag p) as [n|] eqn:Et; [destruct (p_explicit p)|]; cbn [andb orb existsb];
+      rewrite ?orb_false_r; first [ apply (ident_matches_ctx _ _ _ _ _ Et) | apply IHt ].
+  - cbn [starts firsts is_choice]. rewrite orb_true_r.
+    destruct (p_tag p) as [n|] eqn:Et; cbn [andb existsb].
+    + rewrite orb_false_r. apply (ident_matches_ctx _ _ _ _ _ Et).
+    + induction H as [|[ap at'] r Ha Hr IHr]; [reflexivity|]. cbn [snd] in Ha.
+      rewrite existsb_app, Ha, IHr. reflexivity.
+Qed.
+
+Lemma starts_in t p tl : starts t p tl = true <-> In (tal3 tl) (firsts t p).
+Proof.
+  rewrite starts_firsts. split.
+  - intros H. apply existsb_exists in H. destruct H as [f [Hin He]].
+    apply ident3_eqb_eq in He. subst f. exact Hin.
+  - intros H. apply existsb_exists. exists (tal3 tl). split; [exact H | apply ident3_eqb_refl].
+Qed.
+
+Lemma disjoint_starts a b tl : disjoint a b = true ->
+  starts (snd a) (fst a) tl = true -> starts (snd b) (fst b) tl = true -> False.
+Proof.
+  unfold disjoint. intros Hd Ha Hb. rewrite forallb_forall in Hd.
+  apply starts_in in Ha. specialize (Hd _ Ha). rewrite negb_true_iff in Hd.
+  rewrite <- starts_firsts in Hd. congruence.
+Qed.
+
+Lemma members_distinct_neq l : members_distinct l = true -> forall i j a b tl,
+  nth_error l i = Some a -> nth_error l j = Some b -> i <> j ->
+  starts (snd b) (fst b) tl = true -> starts (snd a) (fst a) tl = false.
+Proof.
+  induction l as [|x l IH]; intros Hd i j a b tl Ha Hb Hne Sb.
   - destruct i; discriminate Ha.
-  - cbn [tags_distinct] in Hd. apply andb_true_iff in Hd. destruct Hd as [Hx Hrest].
-    pose proof (tagged_tag _ Tb) as Eb.
+  - cbn [members_distinct] in Hd. apply andb_true_iff in Hd. destruct Hd as [Hx Hrest].
+    rewrite forallb_forall in Hx.
     destruct i as [|i], j as [|j]; cbn [nth_error] in *.
     + contradiction.
-    + inversion Ha; subst x. unfold tag_matches at 1.
-      destruct (p_tag (fst a)) as [n|] eqn:Ea; [|reflexivity].
-      rewrite negb_true_iff in Hx.
-      assert (Hb' : tag_matches (fst b) n = false).
-      { destruct (tag_matches (fst b) n) eqn:E; [|reflexivity]. exfalso.
-        assert (existsb (fun b0 => tag_matches (fst b0) n) l = true)
-          by (apply existsb_exists; exists b; split; [eapply nth_error_In; eassumption | exact E]).
-        congruence. }
-      unfold tag_matches in Hb'. rewrite Eb in Hb'. lia.
-    + inversion Hb; subst x. rewrite Eb in Hx. rewrite negb_true_iff in Hx.
-      destruct (tag_matches (fst a) (tagnum (fst b))) eqn:E; [|reflexivity]. exfalso.
-      assert (existsb (fun b0 => tag_matches (fst b0) (tagnum (fst b))) l = true)
-        by (apply existsb_exists; exists a; split; [eapply nth_error_In; eassumption | exact E]).
-      congruence.
+    + inversion Ha; subst x.
+      destruct (starts (snd a) (fst a) tl) eqn:Sa; [|reflexivity]. exfalso.
+      apply (disjoint_starts a b tl); [apply Hx; eapply nth_error_In; eassumption | exact Sa | exact Sb].
+    + inversion Hb; subst x.
+      destruct (starts (snd a) (fst a) tl) eqn:Sa; [|reflexivity]. exfalso.
+      apply (disjoint_starts b a tl); [apply Hx; eapply nth_error_In; eassumption | exact Sb | exact Sa].
     + eapply IH; eauto.
 Qed.
+
+(* the element a member was encoded into starts that member *)
+Lemma dec_ok_starts t p bs v tl off :
+  dec t p bs = Ok v -> parse_tl bs = Ok (tl, off) -> starts t p tl = true.
+Proof. intros D P. rewrite starts_expected. exact (dec_ok_expected t p bs v tl off D P). Qed.
 
 Lemma Forall_nth {A} (P : A -> Prop) l i a : Forall P l -> nth_error l i = Some a -> P a.
 Proof. intros H Hn. rewrite Forall_forall in H. apply H. eapply nth_error_In; eassumption. Qed.
@@ -653,18 +754,15 @@ Proof.
   pose proof (ok_choice_len pr l vs 1 Hv) as Hlen.
   destruct (nth_error l j) as [[ap at']|] eqn:El; [|apply nth_error_None in El; lia].
   destruct (nth_error vs j) as [w|] eqn:Ew; [|apply nth_error_None in Ew; lia].
-  destruct (canon_choice_sel pr l vs 1 j ap at' w ltac:(unfold j; lia) Hv El Ew) as [Ecan [Htg0 Hcw]].
+  destruct (canon_choice_sel pr l vs 1 j ap at' w ltac:(unfold j; lia) Hv El Ew) as [Ecan Hcw].
   pose proof (Forall_nth _ _ _ _ IH El) as IHa. cbn [snd] in IHa.
-  pose proof (tagged_tag _ Htg0) as Htagj.
   rewrite (enc_pick_nth p Ho l vs j ap at' w El Ew) in He.
   cbn [canon]. fold (canon_choice_go pr). rewrite Ecan.
   assert (Hpr : Z.of_nat (S (0 + j)) = pr) by (unfold j; lia).
-  (* the alternatives before j do not carry the selected tag *)
-  assert (Hbefore : forall i a, nth_error l i = Some a -> (i < j)%nat ->
-                      tag_matches (fst a) (tagnum ap) = false).
-  { intros i a Hi Hlt. apply (tags_distinct_neq l Hm i j a (ap, at') Hi El); [lia | exact Htg0]. }
-  assert (Hmatch : tag_matches ap (tagnum ap) = true).
-  { unfold tag_matches. rewrite Htagj. lia. }
+  (* the alternatives before j do not start with the identifier of the selected one *)
+  assert (Hbefore : forall tal, starts at' ap tal = true -> forall i a, nth_error l i = Some a -> (i < j)%nat ->
+                      starts (snd a) (fst a) tal = false).
+  { intros tal Hst i a Hi Hlt. apply (members_distinct_neq l Hm i j a (ap, at') tal Hi El); [lia | exact Hst]. }
   destruct (p_tag p) as [n|] eqn:Et.
   - (* context-tagged CHOICE: constructed wrapper around the alternative *)
     destruct (enc at' ap w) as [inner| | |] eqn:Ei; cbn [bind] in He; try discriminate.
@@ -689,18 +787,18 @@ Proof.
     unfold H. rewrite parse_finish0 by (try assumption; lia). cbn [bind].
     rewrite (enter_range dec (no_explicit p) 0 true 0 inner).
     assert (Hid : ident_ok (TChoice l) p (tl_of (no_explicit p) 0 true 0 (zlen inner)) = true).
-    { unfold ident_ok, tl_of. cbn [prim_tag no_explicit p_tag]. rewrite Et.
+    { unfold ident_ok, ident_matches, tl_of. cbn [prim_tag no_explicit p_tag]. rewrite Et.
       cbn [t_cls t_num t_constr Bool.eqb]. rewrite !Z.eqb_refl. reflexivity. }
     rewrite Hid. cbn [negb].
     rewrite Ho, Et.
     rewrite (enter_content (no_explicit p) 0 true 0 inner). cbn [bind].
     destruct (shaped_parse ap inner [] Hsh Hil) as [tal [off [Hpar [Hoff [Hlen2 [Hl0 Htg]]]]]].
     rewrite app_nil_r in Hpar. rewrite Hpar. cbn [bind].
+    pose proof (dec_ok_starts at' ap inner _ tal off Hd Hpar) as Hmatch.
     fold H.
     replace (zlen H + off + t_len tal >? zlen (H ++ inner)) with false by (rewrite zlen_app; lia).
     cbn [bind]. unfold H. rewrite (enter_content (no_explicit p) 0 true 0 inner). cbn [bind].
-    rewrite (Htg _ Htagj).
-    rewrite (choice_pick_sel dec l inner (tagnum ap) j l 0 ap at' Hbefore El Hmatch).
+    rewrite (choice_pick_sel dec l inner tal j l 0 ap at' (Hbefore tal Hmatch) El Hmatch).
     rewrite Hd. cbn [bind]. rewrite Hpr. reflexivity.
   - (* untagged CHOICE: the alternative's own encoding *)
     destruct (IHa ap w bs Hcw He Hs) as [Hd Hsh].
@@ -710,6 +808,7 @@ Proof.
         intros m Hmm. rewrite Et in Hmm. discriminate Hmm. }
     destruct (shaped_parse ap bs [] Hsh Hs) as [tal [off [Hpar [Hoff [Hlen2 [Hl0 Htg]]]]]].
     rewrite app_nil_r in Hpar.
+    pose proof (dec_ok_starts at' ap bs _ tal off Hd Hpar) as Hmatch.
     rewrite dec_unfold. cbn [dec_step]. rewrite Hpar. cbn [bind].
     replace (off + t_len tal >? zlen bs) with false by lia.
     rewrite explicit_cond_false by exact Hn.
@@ -719,8 +818,8 @@ Proof.
     rewrite Ho. cbn [bind].
     assert (Sl : slice_from bs 0 = Ok bs).
     { change bs with ([] ++ bs) at 1. apply (slice_from_app_len [] bs). }
-    rewrite Sl. cbn [bind]. rewrite (Htg _ Htagj).
-    rewrite (choice_pick_sel dec l bs (tagnum ap) j l 0 ap at' Hbefore El Hmatch).
+    rewrite Sl. cbn [bind].
+    rewrite (choice_pick_sel dec l bs tal j l 0 ap at' (Hbefore tal Hmatch) El Hmatch).
     rewrite Hd. cbn [bind]. rewrite Hpr. reflexivity.
 Qed.
 
@@ -739,15 +838,15 @@ Definition ok_seq_go :=
     | [], [] => true
     | (fp, ft) :: l', w :: ws' =>
       (if p_optional fp && is_nil w then nillable ft
-       else (negb (p_optional fp) || nillable ft) && tagged fp && ok ft fp w) && go l' ws'
+       else (negb (p_optional fp) || nillable ft) && ok ft fp w) && go l' ws'
     | _, _ => false
     end.
 
 Lemma seq_find_sel rec p current tn chunk K : forall jrel l' i0 fp ft,
-  (forall i a, nth_error l' i = Some a -> (i < jrel)%nat -> tag_matches (fst a) tn = false) ->
+  (forall i a, nth_error l' i = Some a -> (i < jrel)%nat -> starts (snd a) (fst a) tn = false) ->
   nth_error l' jrel = Some (fp, ft) ->
   ((if p_set p then O else current) <= i0 + jrel)%nat ->
-  p_open p = false -> tag_matches fp tn = true ->
+  p_open p = false -> starts ft fp tn = true ->
   seq_find rec p current tn chunk K l' i0 = do v <- rec ft fp chunk; K (i0 + jrel)%nat v.
 Proof.
   induction jrel as [|jrel IH]; intros l' i0 fp ft Hbefore Hl Hstart Ho Hm.
@@ -758,7 +857,7 @@ Proof.
     rewrite Ho, Hm. reflexivity.
   - destruct l' as [|[a0 t0] l']; [discriminate Hl|]. cbn [nth_error] in Hl.
     cbn [seq_find].
-    pose proof (Hbefore 0%nat (a0, t0) eq_refl ltac:(lia)) as Hb0. cbn [fst] in Hb0.
+    pose proof (Hbefore 0%nat (a0, t0) eq_refl ltac:(lia)) as Hb0. cbn [fst snd] in Hb0.
     rewrite Ho, Hb0.
     assert (Rest : seq_find rec p current tn chunk K l' (S i0) =
                    do v <- rec ft fp chunk; K (i0 + S jrel)%nat v).
@@ -779,7 +878,7 @@ Section SeqRT.
   Variable l : list (fparams * ty).
   Variable p : fparams.
   Variable bs : list Z.
-  Hypothesis Hm : tags_distinct l = true.
+  Hypothesis Hm : members_distinct l = true.
   Hypothesis Ho : p_open p = false.
   Hypothesis Hsz : zlen bs < 2 ^ 32.
 
@@ -807,12 +906,12 @@ Section SeqRT.
       cbn [enc_seq_go] in He. cbn [map snd canon_seq_go].
       assert (El' : pre ++ (fp, ft) :: rem = (pre ++ [(fp, ft)]) ++ rem) by (rewrite <- app_assoc; reflexivity).
       (* the step for a member that is present in the encoding *)
-      assert (Present : forall b r, tagged fp = true -> ok ft fp w = true ->
+      assert (Present : forall b r, ok ft fp w = true ->
                 enc ft fp w = Ok b -> enc_seq_go enc rem wrem = Ok r -> C = b ++ r ->
                 seq_loop dec l p bs (zlen bs) fuel (zlen B0) current
                   (canon_pre ++ zero ft :: map (fun a => zero (snd a)) rem) =
                 Ok (VStruct (canon_pre ++ canon ft false w :: canon_seq_go rem wrem))).
-      { intros b r Htg0 Hw Eb Er EC. subst C.
+      { intros b r Hw Eb Er EC. subst C.
         assert (Hbl : zlen b < 2 ^ 32).
         { rewrite Ebs, !zlen_app in Hsz. pose proof (zlen_nonneg B0). pose proof (zlen_nonneg r). lia. }
         destruct (IHf fp w b Hw Eb Hbl) as [Hd Hsh].
@@ -822,8 +921,10 @@ Section SeqRT.
         rewrite Ebs at 1. rewrite !zlen_app.
         replace (zlen B0 >=? zlen B0 + (zlen b + zlen r)) with false by lia.
         rewrite Ebs at 1. rewrite slice_from_app_len. cbn [bind].
-        destruct (shaped_parse fp b r Hsh Hbl) as [tal [off [Hpar [Hoff [Hlen2 [Hl0 Htg]]]]]].
-        rewrite Hpar. cbn [bind].
+        destruct (shaped_parse_all fp b Hsh Hbl) as [tal [off [Hpar [Hoff [Hlen2 Hl0]]]]].
+        rewrite (Hpar r). cbn [bind].
+        assert (Hmatch : starts ft fp tal = true).
+        { apply (dec_ok_starts ft fp b _ tal off Hd). rewrite <- (Hpar []), app_nil_r. reflexivity. }
         replace (zlen B0 + off + t_len tal) with (zlen B0 + zlen b) by lia.
         rewrite Ebs at 1. rewrite !zlen_app.
         replace (zlen B0 + zlen b >? zlen B0 + (zlen b + zlen r)) with false by lia.
@@ -831,9 +932,7 @@ Section SeqRT.
         replace (zlen B0) with (zlen B0 + 0) at 1 by lia.
         rewrite slice_shift by lia. rewrite slice0_app by reflexivity. cbn [bind].
         assert (Hnth : nth_error l (length pre) = Some (fp, ft)) by (rewrite El; apply nth_error_app_len).
-        pose proof (tagged_tag _ Htg0) as Htagj.
-        rewrite (Htg _ Htagj).
-        rewrite (seq_find_sel dec p current (tagnum fp) b _ (length pre) l 0 fp ft).
+        rewrite (seq_find_sel dec p current tal b _ (length pre) l 0 fp ft).
         - rewrite Hd. cbn [bind]. cbn [Nat.add].
           rewrite <- Hlen. rewrite set_nth_app_len. rewrite Hlen.
           replace (zlen B0 + zlen b) with (zlen (B0 ++ b)) by (rewrite zlen_app; reflexivity).
@@ -851,11 +950,11 @@ Section SeqRT.
           + rewrite !app_length. cbn [length]. lia.
           + lia.
         - intros i a Hi Hlt.
-          apply (tags_distinct_neq l Hm i (length pre) a (fp, ft) Hi Hnth); [lia | exact Htg0].
+          apply (members_distinct_neq l Hm i (length pre) a (fp, ft) tal Hi Hnth); [lia | exact Hmatch].
         - exact Hnth.
         - cbn [Nat.add]. destruct (p_set p); lia.
         - exact Ho.
-        - unfold tag_matches. rewrite Htagj. lia. }
+        - exact Hmatch. }
       destruct (p_optional fp) eqn:Eopt; cbn [andb negb orb] in *.
       + destruct (is_nil w) eqn:Enil.
         * (* absent OPTIONAL member *)
@@ -874,8 +973,7 @@ Section SeqRT.
           -- rewrite app_length. cbn [length]. lia.
           -- rewrite !app_length. cbn [length]. lia.
         * (* present OPTIONAL member *)
-          apply andb_true_iff in Hhead. destruct Hhead as [Hhead Hw].
-          apply andb_true_iff in Hhead. destruct Hhead as [Hnil Htg0].
+          apply andb_true_iff in Hhead. destruct Hhead as [Hnil Hw].
           rewrite Hnil in He.
           rewrite (is_nil_canon ft w Enil).
           destruct (p_open fp); [discriminate He|].
@@ -883,7 +981,7 @@ Section SeqRT.
           destruct (enc_seq_go enc rem wrem) as [r| | |] eqn:Er; cbn [bind] in He; try discriminate He.
           inversion He; subst C; clear He.
           apply (Present b r); try reflexivity; assumption.
-      + apply andb_true_iff in Hhead. destruct Hhead as [Htg0 Hw].
+      + rename Hhead into Hw.
         destruct (p_open fp); [discriminate He|].
         destruct (enc ft fp w) as [b| | |] eqn:Eb; try discriminate He.
         destruct (enc_seq_go enc rem wrem) as [r| | |] eqn:Er; cbn [bind] in He; try discriminate He.
